@@ -12,12 +12,13 @@
      ClChecksum   the tail is exactly two upper-case hexadecimal digits whose value is the XOR of the body
      ClAlphabet   every payload character belongs to the 64-character armoring alphabet ('0'..'W', '`'..'w')
      ClNumbering  there is at least one sentence; with n sentences, sentence i (from 1) says "i of n"
-     ClSeq        all sentences carry the same sequence id, which is empty or one decimal digit
+     ClSeq        all sentences carry the same sequence id, which is empty or one decimal digit -- and not empty when
+                  there are several sentences (an absent id is no id the fragments could have in common)
      ClFill       every sentence but the last says 0 fill bits, the last says the requested number
      ClConcat     the payload fields, concatenated in order, are the armored payload
    Two clauses the property text does not demand but the encoder also guarantees (proved, not part of the oracle):
      ClChannel    the channel field is the requested channel
-     ClSeqSingle  the sequence id is empty exactly when there is one sentence *)
+     ClSeqSingle  a single sentence carries no sequence id (with ClSeq: the id is empty exactly when n = 1) *)
 From Coq Require Import ZArith List Bool.
 Import ListNotations.
 Open Scope Z_scope.
@@ -161,11 +162,12 @@ Definition fs_clause_holds (talker channel payload : fs_text) (fill : Z) (ss : l
                                     | [] => true
                                     | v0 :: _ => fs_seq_text_ok (sv_seq v0)
                                                  && forallb (fun v => fs_text_eqb (sv_seq v) (sv_seq v0)) vs
+                                                 && ((Z.of_nat (length vs) <=? 1) || negb (fs_text_eqb (sv_seq v0) []))
                                     end)
   | ClFill => fs_on_views ss (fs_fill_ok fill)
   | ClConcat => fs_on_views ss (fun vs => fs_text_eqb (concat (map sv_payload vs)) payload)
   | ClChannel => fs_on_views ss (forallb (fun v => fs_text_eqb (sv_chan v) channel))
-  | ClSeqSingle => fs_on_views ss (forallb (fun v => Bool.eqb (fs_text_eqb (sv_seq v) []) (Z.of_nat (length ss) =? 1)))
+  | ClSeqSingle => fs_on_views ss (forallb (fun v => negb (Z.of_nat (length ss) =? 1) || fs_text_eqb (sv_seq v) []))
   end.
 
 (* the clauses that fail (empty list = well-formed) *)
